@@ -29,7 +29,8 @@ type wrInput struct {
 	GoMaxProcs int    `json:"gomaxprocs"`
 	Tail       int    `json:"partial_tail_bytes"` // a truncated last frame
 	PauseEvery int    `json:"pause_every_chunks"`
-	SpreadMs   int    `json:"spread_ms,omitempty"` // > 0: frames are sent one by one, evenly over this many milliseconds
+	SpreadMs   int    `json:"spread_ms,omitempty"`            // > 0: frames are sent one by one, evenly over this many milliseconds
+	ClearAt    int    `json:"clear_prefixed_frame,omitempty"` // > 0: this frame begins with the bytes "clear" (the recorder's in-band marker means nothing to the writer)
 }
 
 func wrFrames(in wrInput) [][]byte {
@@ -41,6 +42,9 @@ func wrFrames(in wrInput) [][]byte {
 		// sequence number in the first 4 bytes makes duplicates / reordering visible
 		if in.FrameSize >= 4 {
 			binary.LittleEndian.PutUint32(b, uint32(i))
+		}
+		if in.ClearAt > 0 && i == in.ClearAt && in.FrameSize >= 5 {
+			copy(b, "clear")
 		}
 		fs[i] = b
 	}
@@ -380,8 +384,14 @@ func init() {
 				}
 				continue
 			}
+			if i%5 == 3 && in.FrameSize >= 5 && in.Frames >= 4 {
+				in.ClearAt = 1 + in.Frames/3
+			}
 			files, line, done := wrRun(in, nil)
 			tags := []string{fmt.Sprintf("gomaxprocs=%d", in.GoMaxProcs), fmt.Sprintf("framesize=%d", in.FrameSize)}
+			if in.ClearAt > 0 {
+				tags = append(tags, "frame-beginning-with-clear")
+			}
 			if in.Frames > 256 {
 				tags = append(tags, "frames>256")
 			}
